@@ -58,6 +58,95 @@ def handleStr (ws : List String) : String :=
     | none => "bad-request bad-request -"
   | _ => "bad-request bad-request -"
 
+/-! ### where a numeric literal token ends (ES5 7.8.3) -/
+
+namespace NumTok
+def isDec (c : Nat) : Bool := 48 ≤ c ∧ c ≤ 57
+def isOct (c : Nat) : Bool := 48 ≤ c ∧ c ≤ 55
+def isHex (c : Nat) : Bool := isDec c || (97 ≤ c ∧ c ≤ 102) || (65 ≤ c ∧ c ≤ 70)
+/-- lexer.go isIdentifierStart on ASCII (the requests are ASCII): `$ _ \ a-z A-Z` -/
+def isIdStart (c : Nat) : Bool := c = 36 || c = 95 || c = 92 || (97 ≤ c ∧ c ≤ 122) || (65 ≤ c ∧ c ≤ 90) || c ≥ 128
+def isE (c : Nat) : Bool := c = 101 || c = 69
+
+/-- lexer.go scanNumericLiteral, label `hexadecimal:/octal:` — none = ILLEGAL -/
+def tailCheck (r : List Nat) : Option (List Nat) :=
+  match r with
+  | c :: _ => if isIdStart c || isDec c then none else some r
+  | [] => some r
+
+/-- label `exponent:` -/
+def exponentPart (r : List Nat) : Option (List Nat) :=
+  match r with
+  | e :: r1 =>
+    if isE e then
+      let r2 := match r1 with | c :: r' => if c = 45 ∨ c = 43 then r' else r1 | [] => r1
+      match r2 with
+      | d :: r3 => if isDec d then some (r3.dropWhile isDec) else none
+      | [] => none
+    else some r
+  | [] => some r
+
+/-- label `float:` -/
+def floatPart (r : List Nat) : Option (List Nat) :=
+  let r1 := match r with | 46 :: r' => r'.dropWhile isDec | _ => r
+  (exponentPart r1).bind tailCheck
+
+/-- MODEL: lexer.go `scan` (case '.', case digit) + `scanNumericLiteral`: the rest after the NUMBER token, none = ILLEGAL -/
+def scanModel (s : List Nat) : Option (List Nat) :=
+  match s with
+  | 46 :: r => (exponentPart (r.dropWhile isDec)).bind tailCheck          -- decimalPoint: mantissa, then `goto exponent`
+  | 48 :: r =>
+    match r with
+    | x :: r1 =>
+      if x = 120 ∨ x = 88 then
+        (match r1 with | h :: r2 => if isHex h then tailCheck (r2.dropWhile isHex) else none | [] => none)
+      else if x = 46 then floatPart r
+      else if isE x then (exponentPart r).bind tailCheck
+      else
+        let r2 := r.dropWhile isOct
+        (match r2 with | c :: _ => if c = 56 ∨ c = 57 then none else tailCheck r2 | [] => tailCheck r2)
+    | [] => tailCheck []
+  | _ => floatPart (s.dropWhile isDec)
+
+/-- SPEC (7.8.3 + B.1.1): the longest NumericLiteral that is a prefix of the text, then "the source character immediately
+    following a NumericLiteral must not be an IdentifierStart or DecimalDigit" -/
+def specLiteralEnd (s : List Nat) : List Nat :=
+  let expo (r : List Nat) : List Nat :=      -- ExponentPart is taken only when complete
+    match r with
+    | e :: r1 => if isE e then
+        (match r1 with
+         | c :: d :: r' => if (c = 45 ∨ c = 43) ∧ isDec d then r'.dropWhile isDec
+                           else if isDec c then (d :: r').dropWhile isDec else r
+         | [c] => if isDec c then [] else r
+         | [] => r)
+      else r
+    | [] => r
+  let frac (r : List Nat) : List Nat := match r with | 46 :: r' => expo (r'.dropWhile isDec) | _ => expo r
+  match s with
+  | 46 :: r => expo (r.dropWhile isDec)                                    -- . DecimalDigits ExponentPart?
+  | 48 :: x :: h :: r => if (x = 120 ∨ x = 88) ∧ isHex h then r.dropWhile isHex          -- HexIntegerLiteral
+                          else if isOct x then (x :: h :: r).dropWhile isOct               -- B.1.1 0 OctalDigit+
+                          else frac (x :: h :: r)                                           -- DecimalIntegerLiteral `0`
+  | 48 :: x :: r => if isOct x then (x :: r).dropWhile isOct else frac (x :: r)
+  | 48 :: r => frac r
+  | _ => frac (s.dropWhile isDec)
+
+def scanSpec (s : List Nat) : Option (List Nat) := tailCheck (specLiteralEnd s)
+
+def out (s : List Nat) (r : Option (List Nat)) : String :=
+  match r with
+  | none => "ILLEGAL"
+  | some rest => "NUMBER~" ++ bytesOut (s.take (s.length - rest.length))
+end NumTok
+
+/-- numadj <hex text>: a numeric literal immediately followed by something; compared: the first token of the real scanner -/
+def handleNumAdj (ws : List String) : String :=
+  match ws with
+  | [h] => match bytes? (h.drop 1).toString with
+    | some bs => NumTok.out bs (NumTok.scanModel bs) ++ " " ++ NumTok.out bs (NumTok.scanSpec bs) ++ " -"
+    | none => "bad-request bad-request -"
+  | _ => "bad-request bad-request -"
+
 /-! ### object literal property names (ES5 11.1.5) -/
 
 /-- ToString (9.8.1) of the exact value n/d for the plain-decimal range, when the decimal expansion is finite and short
